@@ -61,6 +61,9 @@ pub struct Ev {
     /// byte length; -1 if unknown (start of a receive) or failed
     pub len: i64,
     pub ok: bool,
+    /// for completed sends of Vec<Option<_>> messages: the `Some` positions
+    #[serde(skip_serializing_if = "Option::is_none")]
+    pub some: Option<Vec<usize>>,
 }
 
 /// A message as it crossed the wire (after tampering), with the original.
@@ -157,6 +160,7 @@ impl Net {
             ph: o.phase.clone(),
             len,
             ok,
+            some: None,
         });
     }
 
@@ -228,6 +232,7 @@ impl Net {
         };
         let res: Result<(), ChanErr>;
         let mut len: i64 = -1;
+        let mut some: Option<Vec<usize>> = None;
         if !self.valid_peer(party, peer) {
             res = Err(ChanErr(format!("no such peer {peer}")));
         } else {
@@ -276,6 +281,7 @@ impl Net {
                                         sent: sent.clone(),
                                     });
                                 }
+                                some = crate::adv::some_positions(&self.ops[id].phase, &sent);
                                 self.queues[party][peer].push_back(sent);
                                 res = Ok(());
                             }
@@ -301,6 +307,11 @@ impl Net {
         let ok = res.is_ok();
         self.ops[id].done = Some(res);
         self.push_ev("e", id, len, ok);
+        if some.is_some() && self.record_events {
+            if let Some(last) = self.log.last_mut() {
+                last.some = some;
+            }
+        }
         if let Some(w) = self.ops[id].waker.take() {
             w.wake();
         }
